@@ -127,6 +127,9 @@ def spec_signature(fname, st, cls, ret, call_line):
         return "api:xmp_set_position(0)#ret"
     if fname == "next_position" and ret == "-1":
         return "api:xmp_next_position#ret"
+    if fname == "set_position" and ret in ("-1", "-2") and args and args[0] != "0" and st == "2":
+        # target order outside every sequence: the pending internal marker (restart -1 / stop -2) is returned
+        return "api:xmp_set_position(nonzero)#ret=marker"
     return "api:%s[state=%s,%s]#ret=%s" % (export_name(fname), st, cls, ret if int(ret) < 0 else ">=0")
 
 
